@@ -28,6 +28,7 @@ type exprEnv struct {
 	w      *World
 	pkg    *ssa.Package
 	vars   map[string]typedTerm
+	fullNested bool // keep every instantiation point at the nested level (preconditions)
 	assumeDepth int // trAssume: nesting depth of universals instantiated at goal constants
 	entryVars map[string]typedTerm // parameters at entry, for old(p) inside loop invariants
 	result []typedTerm
@@ -251,6 +252,18 @@ func (env *exprEnv) trGoal(x *Expr) typedTerm {
 					}
 				}
 			}
+			if env.e != nil && len(env.e.root().sorts) > 0 {
+				// after a sort, the new position of an element known by a named witness of its old position
+				var moved []Term
+				for k := range env.e.root().sorts {
+					for _, c := range append(append([]Term{}, env.witnesses...), env.hypInst...) {
+						if strings.HasPrefix(c, "ask!") || strings.HasPrefix(c, "hsk!") {
+							moved = append(moved, fmt.Sprintf("(sortinv%d %s)", k, c))
+						}
+					}
+				}
+				cands = append(cands, moved...)
+			}
 			for n, cand := range append(cands, env.hypInst...) {
 				env.vars[x.vars[0].name] = typedTerm{t: cand, typ: tInt}
 				if env.skNext >= len(env.goalSk) {
@@ -271,7 +284,8 @@ func (env *exprEnv) trGoal(x *Expr) typedTerm {
 		}
 	case "call":
 		if x.args[0].op == "ident" && env.pkg != nil {
-			if sf := env.w.specs[shortPkg(env.pkg.Pkg)][x.args[0].name]; sf != nil && !sf.rec && len(x.args)-1 == len(sf.params) {
+			if sf := env.w.specs[shortPkg(env.pkg.Pkg)][x.args[0].name]; sf != nil && !sf.rec && len(x.args)-1 == len(sf.params) && hasQuantifier(sf.body) {
+				// only a spec with quantifiers gains from being unfolded in goal mode; the others stay define-funs
 				sub := &exprEnv{g: env.g, w: env.w, pkg: env.w.byShort[sf.pkg], vars: map[string]typedTerm{}, goalSk: env.goalSk, skNext: env.skNext}
 				for i, p := range sf.params {
 					a := env.tr(x.args[i+1])
@@ -331,15 +345,24 @@ func (env *exprEnv) trAssume(x *Expr) typedTerm {
 		// existentials named (each instance is a closed formula, so naming its witnesses is sound)
 		if len(x.vars) == 1 && isInteger(env.resolveType(x.vars[0].typ)) && env.e != nil && env.instDepth == 0 {
 			parts := []Term{env.tr(x).t}
-			if hasExists(x.args[0]) {
+			// (grouped invariants only: for a goal that does not mention the goal constants the extra instances are noise
+			// that can cost the proof, seen on npm's Contains, whose invariant is in every obligation of the function)
+			if hasExists(x.args[0]) && env.e.root().curGroup != "" {
 				old, had := env.vars[x.vars[0].name]
 				// the goal constant a goal of the same quantifier shape uses at this nesting depth
 				if sk := env.e.root().goalSk; env.assumeDepth < len(sk) {
-					at := sk[env.assumeDepth]
-					env.assumeDepth++
-					env.vars[x.vars[0].name] = typedTerm{t: at, typ: tInt}
-					parts = append(parts, implies("(inr64 "+at+")", env.trAssume(x.args[0]).t))
-					env.assumeDepth--
+					// outermost universal: every goal constant (the goal may bind this position second); nested ones: the
+					// constant of that depth only (all combinations made the candidate lists explode)
+					ats := []Term{sk[env.assumeDepth]}
+					if env.assumeDepth == 0 {
+						ats = sk
+					}
+					for _, at := range ats {
+						env.assumeDepth++
+						env.vars[x.vars[0].name] = typedTerm{t: at, typ: tInt}
+						parts = append(parts, implies("(inr64 "+at+")", env.trAssume(x.args[0]).t))
+						env.assumeDepth--
+					}
 				}
 				if had {
 					env.vars[x.vars[0].name] = old
@@ -376,6 +399,21 @@ func (env *exprEnv) trAssume(x *Expr) typedTerm {
 		}
 	}
 	return env.tr(x)
+}
+
+func hasQuantifier(x *Expr) bool {
+	if x == nil {
+		return false
+	}
+	if x.op == "exists" || x.op == "forall" {
+		return true
+	}
+	for _, a := range x.args {
+		if hasQuantifier(a) {
+			return true
+		}
+	}
+	return false
 }
 
 func hasExists(x *Expr) bool {
@@ -537,7 +575,14 @@ func (env *exprEnv) tr(x *Expr) typedTerm {
 		mark := len(env.idxTerms)
 		savedTrig := env.triggers
 		env.triggers = nil
+		savedInst := env.instAt
+		if env.e != nil && env.e.root().existsInv() && x.op == "forall" && !env.fullNested {
+			// (functions with existential invariants have many instantiation points: the body of the quantified form
+			// itself carries no explicit instances of inner quantifiers; the explicit instances below do)
+			env.instAt = nil
+		}
 		body := env.tr(x.args[0])
+		env.instAt = savedInst
 		trig := env.triggers
 		env.triggers = savedTrig
 		// patterns: index terms that mention the bound variables (all of them must be covered)
@@ -587,6 +632,16 @@ func (env *exprEnv) tr(x *Expr) typedTerm {
 			env.instAt = nil
 			if env.instDepth == 0 && len(saveI) <= 8 {
 				env.instAt = saveI
+			}
+			if env.instDepth == 0 && env.e != nil && env.e.root().existsInv() && !env.fullNested {
+				// functions with existential invariants carry many instantiation points (iteration indices, witnesses):
+				// the nested level keeps the goal constants and named witnesses only
+				env.instAt = nil
+				for _, t := range saveI {
+					if strings.HasPrefix(t, "gsk!") || strings.HasPrefix(t, "hsk!") {
+						env.instAt = append(env.instAt, t)
+					}
+				}
 			}
 			env.instDepth++
 			defer func() { env.instDepth-- }()
@@ -801,6 +856,19 @@ func (env *exprEnv) call(x *Expr) typedTerm {
 				return r
 			}
 			return env.tr(argEs[0])
+		case "anon":
+			// anon(k): the k-th function literal of the function under contract (a constant, as in the translation of the
+			// body, where a literal without captured variables passed to library code is an opaque constant)
+			if env.e == nil || len(argEs) != 1 || argEs[0].op != "int" {
+				return env.fail("anon(k) is only available inside the function's own invariants and local clauses")
+			}
+			k, _ := strconv.Atoi(argEs[0].ival)
+			fn := env.e.root().fn
+			if k < 1 || k > len(fn.AnonFuncs) {
+				return env.fail("anon(%d): the function has %d literals", k, len(fn.AnonFuncs))
+			}
+			f := fn.AnonFuncs[k-1]
+			return typedTerm{t: env.e.fnConst(f), typ: f.Signature}
 		case "ecosystem":
 			// the interface value the CLI passes for an ecosystem package: &pkg.Ecosystem{} boxed
 			if len(argEs) == 1 && argEs[0].op == "str" {
@@ -1098,4 +1166,9 @@ func (env *exprEnv) specCall(sf *SpecFunc, argEs []*Expr) typedTerm {
 		return typedTerm{t: sym, typ: rt}
 	}
 	return typedTerm{t: "(" + sym + " " + strings.Join(as, " ") + ")", typ: rt}
+}
+
+func isBoolType(t types.Type) bool {
+	b, ok := t.Underlying().(*types.Basic)
+	return ok && b.Kind() == types.Bool
 }
